@@ -22,3 +22,13 @@ Fixpoint fill_err (fz errs : list A) : list A :=
   end.
 Definition nan_positions (fz : list A) : list nat := filter (fun i => isnan Op (nth i fz (zero Op))) (seq 0 (length fz)).
 End Limit.
+
+(* Limit._lim / Residue._fun: the steps of the generator are multiplied by the sign of the method, f is
+   evaluated at z + h for each signed step h, and (Residue) every value is multiplied by h^pole_order. *)
+Section Lim.
+Context {A : Type} (Op : Ops A).
+Definition lim_steps (sign : A) (steps : list A) : list A := map (mul Op sign) steps.
+Definition lim_points (z : A) (hs : list A) : list A := map (add Op z) hs.
+Fixpoint powA (d : A) (p : nat) : A := match p with 0%nat => one Op | S q => mul Op d (powA d q) end.
+Definition residue_seq (p : nat) (fvals hs : list A) : list A := map (fun fh => mul Op (fst fh) (powA (snd fh) p)) (combine fvals hs).
+End Lim.
